@@ -6,6 +6,7 @@ pub mod cost;
 pub mod commonview;
 pub mod fixed;
 pub mod hist;
+pub mod idspace;
 pub mod json;
 pub mod streams;
 pub mod xbuild;
